@@ -230,6 +230,59 @@ def check_empty_leaf(ctx: Ctx):
                       f"(err={e1}); the explicit call with the leaves the tensors were computed from leaves {g2} (err={e2})", rp)
 
 
+class _Tempered(torch.autograd.Function):
+    """y = x * 2, keeping on its context an attribute called `variable` (a temperature leaf handed over in an options
+    dict: NOT an input of the autograd node).  A custom Function's grad_fn is the context object itself."""
+
+    @staticmethod
+    def forward(ctx, x, opts):
+        ctx.variable = opts["temperature"]
+        return x * 2
+
+    @staticmethod
+    def backward(ctx, g):
+        return g * 2, None
+
+
+def check_custom_function(ctx: Ctx):
+    """the leaves of a graph are the variables of its AccumulateGrad nodes — nothing else: a user-defined Function may keep
+    anything on its context"""
+    from torchjd.aggregation import Constant
+    rng = ctx.rng
+    xv = [float(rng.randint(-3, 4)) for _ in range(3)]
+    w = [float(rng.randint(-3, 5)) for _ in range(2)]
+    api = rng.choice(["backward", "mtl_backward"])
+
+    def run(explicit):
+        x = torch.tensor(xv, dtype=torch.float64, requires_grad=True)
+        temp = torch.tensor(2.0, dtype=torch.float64, requires_grad=True)
+        p = torch.tensor([1.5], dtype=torch.float64, requires_grad=True)
+        f = _Tempered.apply(x * x, {"temperature": temp})
+        A = Constant(torch.tensor(w, dtype=torch.float64))
+        err = None
+        try:
+            if api == "backward":
+                y = torch.stack([f.sum(), (f * f).sum()])
+                backward([y], A, **({"inputs": [x]} if explicit else {}))
+            else:
+                l1, l2 = (f * p).sum(), f.sum()
+                mtl_backward([l1, l2], [f], A, **({"tasks_params": [[p], []], "shared_params": [x]} if explicit else {}))
+        except Exception as e:  # noqa: BLE001
+            err = classify_exc(e)
+        return err, _gsig([x, temp, p])
+
+    e1, g1 = run(False)
+    e2, g2 = run(True)
+    ctx.case(("custom-fn", api, tuple(xv), tuple(w)), nontrivial=True)
+    ctx.count("custom_function", api)
+    if e1 != e2 or g1 != g2:
+        ctx.violation(f"{api} on a graph with a user-defined autograd.Function that keeps a tensor on its context as `ctx.variable`: "
+                      f"the defaulted call leaves (x, temperature, p).grad = {g1} (err={e1}); the explicit call with the leaves the "
+                      f"tensors were computed from leaves {g2} (err={e2})",
+                      {"api": api, "family": "custom Function with ctx.variable", "x": xv, "weights": w,
+                       "default": [e1, str(g1)], "explicit": [e2, str(g2)]})
+
+
 def check_mixed_history(ctx: Ctx, M):
     """two DEFAULTED calls on one retained graph, one through backward (nothing excluded) and one through mtl_backward
     (features excluded), in either order; the twin graph gets the same two calls with explicit parameter lists"""
@@ -346,6 +399,8 @@ def main(ctx: Ctx):
             check_mixed_history(ctx, random_mtl(ctx.rng, heads_disjoint=True))
         if i % 4 == 0:
             check_empty_leaf(ctx)
+        if i % 10 == 0:
+            check_custom_function(ctx)
         if i % 5 == 0:
             check_mtl(ctx, sibling_mtl(ctx.rng))
     return ctx.finish(
